@@ -260,6 +260,25 @@ def binary_ops(n):
         yield f"not v0 {c} v1 and v2 {c} v3 or v4\n"
 
 
+_REDIR_L = ("a", "e", "o", "err", "out", "all", "1", "2", "x")
+_REDIR_R = ("a", "e", "o", "p", "err", "out", "1", "2", "x")
+_REDIR_OPS = (">", ">>", "<", ">=", "<<", ">>=", "|", "&", "-", ">-", ">>-")
+
+
+def redirect_lookalikes(n):
+    """Python expressions that look like xonsh IO redirections (`2>1`, `a>>o`, `err>out`, `e>p`)."""
+    for l in _REDIR_L:
+        for r in _REDIR_R:
+            for op in _REDIR_OPS:
+                yield f"{l}{op}{r}\n"
+                yield f"{l} {op} {r}\n"
+                yield f"y = x-{l}{op}{r}\n"
+                if n >= 4:
+                    yield f"f({l}{op}{r}, {l} {op}{r})\n"
+                    yield f"if {l}{op}{r}:\n    pass\n"
+                    yield f"[{l}{op}{r} for z in w if {l}{op}{r}]\n"
+
+
 _TRAILERS = (".a{i}", "(x{i})", "[y{i}]", "()", "[y{i}:z{i}]", "(k{i}=x{i})")
 
 
@@ -482,6 +501,7 @@ def string_concat(n):
             yield "".join(parts) + "\n"
             yield "x = (" + "\n     ".join(parts) + ")\n"
             yield "x = " + " \\\n    ".join(parts) + "\n"
+            yield "x = " + "\\\n".join(parts) + "\n"
     if n < 4:
         for pat in _seqs(_STRPARTS[:6:2] + _STRPARTS[4:5], 3, 3):
             yield " ".join(p.format(i=i) for i, p in enumerate(pat)) + "\n"
@@ -551,6 +571,22 @@ f"{<NL>v}"
 f'{v<NL>}'
 f'{v:{<NL>w}}'
 g(f"{(<NL>    v)}", f'{<NL>w}')
+f'{v=!s}'
+f'{v=!a}'
+f'{v=!r}'
+f'{v=:}'
+f'{v=:>4}'
+f'{v=!s:>4}'
+f'{v()=:}'
+f'{v = :>{w}}'
+f'{v=}{w=!s}{u=:x}'
+x = f<TQ>a<NL>    {v} = w<NL>    b<NL><TQ>
+x = f'''<NL>  a<NL>{v}<NL>        b{w}<NL>'''
+def g():<NL>    return f<TQ><NL>        {v}<NL>    c<NL><TQ><NL>
+if c:<NL>    x = f'''a<NL>{v}<NL>b'''<NL>    y = 1<NL>
+f<TQ><NL>{v}<TQ>
+f<TQ>{v}<NL><TQ>
+f<TQ>{<NL>v<NL>}<NL>    {w}<TQ>
 f'{v:#{3 != {4:5} and w}x}'
 f'{v:{ {1: 2}[1] }}'
 f'{v:{w}{{}}}'
@@ -568,7 +604,7 @@ f'{lambda x: 1}'
 f'{(lambda x: 1):>4}'
 f'{x:=^{w}}'
 """.strip().split("\n")
-_FSPECIMENS = [x.replace("<NL>", "\n") for x in _FSPECIMENS]
+_FSPECIMENS = [x.replace("<NL>", "\n").replace("<TQ>", '"' * 3) for x in _FSPECIMENS]
 
 
 def fstrings(n):
@@ -700,6 +736,7 @@ FAMILIES = {
     "comparison-chains": comparisons,
     "bool-ops": bool_ops,
     "binary-unary-ops": binary_ops,
+    "redirect-lookalikes": redirect_lookalikes,
     "trailers": trailers,
     "ternary-lambda-walrus": ternaries,
     "call-arguments": call_args,
